@@ -9,15 +9,101 @@ import (
 	"github.com/Comcast/sheens/verifrt/sched"
 )
 
-type (
-	Value   = atomic.Value
-	Int32   = atomic.Int32
-	Int64   = atomic.Int64
-	Uint32  = atomic.Uint32
-	Uint64  = atomic.Uint64
-	Bool    = atomic.Bool
-	Uintptr = atomic.Uintptr
-)
+// The typed atomics are wrappers (not aliases) so that their methods are scheduling points too.
+type Value struct{ v atomic.Value }
+
+func (x *Value) Load() any      { pt("Value.Load"); return x.v.Load() }
+func (x *Value) Store(v any)    { pt("Value.Store"); x.v.Store(v) }
+func (x *Value) Swap(v any) any { pt("Value.Swap"); return x.v.Swap(v) }
+func (x *Value) CompareAndSwap(o, n any) bool {
+	pt("Value.CAS")
+	return x.v.CompareAndSwap(o, n)
+}
+
+type Pointer[T any] struct{ p atomic.Pointer[T] }
+
+func (x *Pointer[T]) Load() *T     { pt("Pointer.Load"); return x.p.Load() }
+func (x *Pointer[T]) Store(v *T)   { pt("Pointer.Store"); x.p.Store(v) }
+func (x *Pointer[T]) Swap(v *T) *T { pt("Pointer.Swap"); return x.p.Swap(v) }
+func (x *Pointer[T]) CompareAndSwap(o, n *T) bool {
+	pt("Pointer.CAS")
+	return x.p.CompareAndSwap(o, n)
+}
+
+type Bool struct{ b atomic.Bool }
+
+func (x *Bool) Load() bool       { pt("Bool.Load"); return x.b.Load() }
+func (x *Bool) Store(v bool)     { pt("Bool.Store"); x.b.Store(v) }
+func (x *Bool) Swap(v bool) bool { pt("Bool.Swap"); return x.b.Swap(v) }
+func (x *Bool) CompareAndSwap(o, n bool) bool {
+	pt("Bool.CAS")
+	return x.b.CompareAndSwap(o, n)
+}
+
+type Int32 struct{ n atomic.Int32 }
+
+func (x *Int32) Load() int32        { pt("Int32.Load"); return x.n.Load() }
+func (x *Int32) Store(v int32)      { pt("Int32.Store"); x.n.Store(v) }
+func (x *Int32) Swap(v int32) int32 { pt("Int32.Swap"); return x.n.Swap(v) }
+func (x *Int32) Add(d int32) int32  { pt("Int32.Add"); return x.n.Add(d) }
+func (x *Int32) And(m int32) int32  { pt("Int32.And"); return x.n.And(m) }
+func (x *Int32) Or(m int32) int32   { pt("Int32.Or"); return x.n.Or(m) }
+func (x *Int32) CompareAndSwap(o, n int32) bool {
+	pt("Int32.CAS")
+	return x.n.CompareAndSwap(o, n)
+}
+
+type Int64 struct{ n atomic.Int64 }
+
+func (x *Int64) Load() int64        { pt("Int64.Load"); return x.n.Load() }
+func (x *Int64) Store(v int64)      { pt("Int64.Store"); x.n.Store(v) }
+func (x *Int64) Swap(v int64) int64 { pt("Int64.Swap"); return x.n.Swap(v) }
+func (x *Int64) Add(d int64) int64  { pt("Int64.Add"); return x.n.Add(d) }
+func (x *Int64) And(m int64) int64  { pt("Int64.And"); return x.n.And(m) }
+func (x *Int64) Or(m int64) int64   { pt("Int64.Or"); return x.n.Or(m) }
+func (x *Int64) CompareAndSwap(o, n int64) bool {
+	pt("Int64.CAS")
+	return x.n.CompareAndSwap(o, n)
+}
+
+type Uint32 struct{ n atomic.Uint32 }
+
+func (x *Uint32) Load() uint32         { pt("Uint32.Load"); return x.n.Load() }
+func (x *Uint32) Store(v uint32)       { pt("Uint32.Store"); x.n.Store(v) }
+func (x *Uint32) Swap(v uint32) uint32 { pt("Uint32.Swap"); return x.n.Swap(v) }
+func (x *Uint32) Add(d uint32) uint32  { pt("Uint32.Add"); return x.n.Add(d) }
+func (x *Uint32) And(m uint32) uint32  { pt("Uint32.And"); return x.n.And(m) }
+func (x *Uint32) Or(m uint32) uint32   { pt("Uint32.Or"); return x.n.Or(m) }
+func (x *Uint32) CompareAndSwap(o, n uint32) bool {
+	pt("Uint32.CAS")
+	return x.n.CompareAndSwap(o, n)
+}
+
+type Uint64 struct{ n atomic.Uint64 }
+
+func (x *Uint64) Load() uint64         { pt("Uint64.Load"); return x.n.Load() }
+func (x *Uint64) Store(v uint64)       { pt("Uint64.Store"); x.n.Store(v) }
+func (x *Uint64) Swap(v uint64) uint64 { pt("Uint64.Swap"); return x.n.Swap(v) }
+func (x *Uint64) Add(d uint64) uint64  { pt("Uint64.Add"); return x.n.Add(d) }
+func (x *Uint64) And(m uint64) uint64  { pt("Uint64.And"); return x.n.And(m) }
+func (x *Uint64) Or(m uint64) uint64   { pt("Uint64.Or"); return x.n.Or(m) }
+func (x *Uint64) CompareAndSwap(o, n uint64) bool {
+	pt("Uint64.CAS")
+	return x.n.CompareAndSwap(o, n)
+}
+
+type Uintptr struct{ n atomic.Uintptr }
+
+func (x *Uintptr) Load() uintptr          { pt("Uintptr.Load"); return x.n.Load() }
+func (x *Uintptr) Store(v uintptr)        { pt("Uintptr.Store"); x.n.Store(v) }
+func (x *Uintptr) Swap(v uintptr) uintptr { pt("Uintptr.Swap"); return x.n.Swap(v) }
+func (x *Uintptr) Add(d uintptr) uintptr  { pt("Uintptr.Add"); return x.n.Add(d) }
+func (x *Uintptr) And(m uintptr) uintptr  { pt("Uintptr.And"); return x.n.And(m) }
+func (x *Uintptr) Or(m uintptr) uintptr   { pt("Uintptr.Or"); return x.n.Or(m) }
+func (x *Uintptr) CompareAndSwap(o, n uintptr) bool {
+	pt("Uintptr.CAS")
+	return x.n.CompareAndSwap(o, n)
+}
 
 func pt(l string) {
 	if sched.Active() {
@@ -67,3 +153,28 @@ func CompareAndSwapUint32(a *uint32, o, n uint32) bool {
 }
 func SwapInt32(a *int32, v int32) int32 { pt("SwapInt32"); return atomic.SwapInt32(a, v) }
 func SwapInt64(a *int64, v int64) int64 { pt("SwapInt64"); return atomic.SwapInt64(a, v) }
+
+func AddUintptr(a *uintptr, d uintptr) uintptr  { pt("AddUintptr"); return atomic.AddUintptr(a, d) }
+func LoadUintptr(a *uintptr) uintptr            { pt("LoadUintptr"); return atomic.LoadUintptr(a) }
+func StoreUintptr(a *uintptr, v uintptr)        { pt("StoreUintptr"); atomic.StoreUintptr(a, v) }
+func SwapUintptr(a *uintptr, v uintptr) uintptr { pt("SwapUintptr"); return atomic.SwapUintptr(a, v) }
+func SwapUint32(a *uint32, v uint32) uint32     { pt("SwapUint32"); return atomic.SwapUint32(a, v) }
+func SwapUint64(a *uint64, v uint64) uint64     { pt("SwapUint64"); return atomic.SwapUint64(a, v) }
+func CompareAndSwapUint64(a *uint64, o, n uint64) bool {
+	pt("CASUint64")
+	return atomic.CompareAndSwapUint64(a, o, n)
+}
+func CompareAndSwapUintptr(a *uintptr, o, n uintptr) bool {
+	pt("CASUintptr")
+	return atomic.CompareAndSwapUintptr(a, o, n)
+}
+func AndInt32(a *int32, m int32) int32         { pt("AndInt32"); return atomic.AndInt32(a, m) }
+func AndInt64(a *int64, m int64) int64         { pt("AndInt64"); return atomic.AndInt64(a, m) }
+func AndUint32(a *uint32, m uint32) uint32     { pt("AndUint32"); return atomic.AndUint32(a, m) }
+func AndUint64(a *uint64, m uint64) uint64     { pt("AndUint64"); return atomic.AndUint64(a, m) }
+func AndUintptr(a *uintptr, m uintptr) uintptr { pt("AndUintptr"); return atomic.AndUintptr(a, m) }
+func OrInt32(a *int32, m int32) int32          { pt("OrInt32"); return atomic.OrInt32(a, m) }
+func OrInt64(a *int64, m int64) int64          { pt("OrInt64"); return atomic.OrInt64(a, m) }
+func OrUint32(a *uint32, m uint32) uint32      { pt("OrUint32"); return atomic.OrUint32(a, m) }
+func OrUint64(a *uint64, m uint64) uint64      { pt("OrUint64"); return atomic.OrUint64(a, m) }
+func OrUintptr(a *uintptr, m uintptr) uintptr  { pt("OrUintptr"); return atomic.OrUintptr(a, m) }
